@@ -313,7 +313,7 @@ def compare_unit(ast, modes, case, rec=None):
     for mode in modes:
         if first is None or first['stats']['mode_dependent']:
             try:
-                b = macroref.build_unit(ast, {'base': mode[0], 'case': mode[1], 'vars': {'foo': FOO}, 'allow': case.get('allow', ())}, MEM0)
+                b = macroref.build_unit(ast, {'base': mode[0], 'case': mode[1], 'vars': {'foo': FOO}, 'allow': case.get('allow', DEFAULT_ALLOW)}, MEM0)
             except OutOfDomain as x:
                 if rec is not None:
                     rec.note('out-of-domain:' + str(x))
@@ -614,7 +614,7 @@ def cli_oracle(case, rec=None):
         for place in case.get('places', PLACEMENTS):
             try:
                 b = macroref.build_unit(ast, {'base': mode[0], 'case': mode[1], 'vars': {'foo': FOO}, 'pc': PC_RULE[place],
-                                              'allow': case.get('allow', ())}, MEM_CLI)
+                                              'allow': case.get('allow', DEFAULT_ALLOW)}, MEM_CLI)
             except OutOfDomain as x:
                 if rec is not None:
                     rec.note('out-of-domain:' + str(x))
@@ -714,12 +714,15 @@ def replay(case):
 
 # Findings of this check. The generator avoids each class by construction (ref/macroref.py,
 # Builder.allow); a replay case switches ONE exclusion off with case['allow'] to reproduce it.
+# classes that were findings and have been fixed in /repo are searched again
+DEFAULT_ALLOW = ('sep-html-chars', 'quote-delims', 'let-edge-ws', 'str-html-chars')
+
 FINDING_CLASSES = {
-    'sep-html-chars': 'C17-sep',          # & < > " ' in sep/fsep of #FOR, in items/sep/fsep of #FOREACH: double-escaped in HTML mode
-    'quote-delims': 'C17-quote',          # " or ' as delimiter of a macro inside a #FOR/#FOREACH body: broken in HTML mode
-    'let-edge-ws': 'C17-letws',           # #LET(s$= x ): value stripped in ASM mode only
-    'def-redefine-noflags': 'C17-redef',  # #DEF(#NAME ...) of an already defined macro expands the old macro
-    'str-html-chars': 'C17-str',          # #STR output is not HTML-escaped
+    'sep-html-chars': 'F34',          # & < > " ' in sep/fsep of #FOR, in items/sep/fsep of #FOREACH: double-escaped in HTML mode
+    'quote-delims': 'F35',          # " or ' as delimiter of a macro inside a #FOR/#FOREACH body: broken in HTML mode
+    'let-edge-ws': 'F36',           # #LET(s$= x ): value stripped in ASM mode only
+    'def-redefine-noflags': 'F38',  # #DEF(#NAME ...) of an already defined macro expands the old macro
+    'str-html-chars': 'F37',          # #STR output is not HTML-escaped
 }
 
 
